@@ -156,6 +156,13 @@ def run(cfg, H):
             res2 = H.expect_no_raise('compute_z_zprime_%s-raises (second call)' % k, lambda: fn(cs, u, usq))
             if res2 is not None:
                 H.eq('a second call on the same buffers gives the same sum', res2[0], ref)
+            # the coefficients given as a floating array that the caller keeps using
+            carr = H.asarray(list(cs)) if H.mode == 'symbolic' else H.np.array([float(c) for c in cs])
+            carr0 = carr.copy()
+            res3 = H.expect_no_raise('compute_z_zprime_%s-raises (array coefficients)' % k, lambda: fn(carr, u, usq))
+            if res3 is not None:
+                H.eq('compute_z_zprime_%s value (array coefficients)' % k, res3[0], ref)
+                H.eq('the caller\'s coefficient array is left unchanged', carr, carr0)
     elif k == 'q2d':
         u = H.rarray('u', (2,))
         t = H.param('t') + 0 * u
